@@ -8,10 +8,10 @@ fn is_name_char(b: u8) -> bool {
 }
 
 /// C07/C20: in a fix template `$NAME` / `$$$NAME` with NAME = [A-Z_][A-Z_0-9]* is a variable (the longest
-/// such run); one or two sigils = single capture (or a transformed variable when NAME is a transform key),
-/// three = multi capture; anything else (lower-case, digit-first, lone sigils) is literal text.
-/// returns (class, consumed): class 0 = literal, 1 = Single, 2 = Multiple, 3 = Transformed
-fn reference(s: &[u8], is_transform: impl Fn(&[u8]) -> bool) -> (u8, usize) {
+/// such run); a NAME that is a transform key = the transformed variable (one to three sigils: C12 / F35), otherwise one or two
+/// sigils = single capture, three = multi capture; anything else (lower-case, digit-first, lone sigils) is literal text.
+/// returns (class, consumed, sigils): class 0 = literal, 1 = Single, 2 = Multiple, 3 = Transformed
+fn reference(s: &[u8], is_transform: impl Fn(&[u8]) -> bool) -> (u8, usize, usize) {
   let mut n = 0;
   while n < s.len() && n < 3 && s[n] == b'$' {
     n += 1;
@@ -21,15 +21,15 @@ fn reference(s: &[u8], is_transform: impl Fn(&[u8]) -> bool) -> (u8, usize) {
     e += 1;
   }
   if e == n || s[n].is_ascii_digit() {
-    return (0, 0);
+    return (0, 0, n);
   }
   let name = &s[n..e];
-  if n == 3 {
-    (2, e)
-  } else if is_transform(name) {
-    (3, e)
+  if is_transform(name) {
+    (3, e, n)
+  } else if n == 3 {
+    (2, e, n)
   } else {
-    (1, e)
+    (1, e, n)
   }
 }
 
@@ -46,7 +46,7 @@ fn check<const N: usize>(with_transform: bool) {
   let s = unsafe { std::str::from_utf8_unchecked(&buf[..len]) };
   let transforms: Vec<String> = if with_transform { vec!["A".to_string()] } else { vec![] };
   let got = split_first_meta_var(s, '$', &transforms);
-  let (class, consumed) = reference(&buf[..len], |name| with_transform && name == b"A");
+  let (class, consumed, sig) = reference(&buf[..len], |name| with_transform && name == b"A");
   match got {
     None => assert!(class == 0),
     Some((var, skipped)) => {
@@ -58,7 +58,6 @@ fn check<const N: usize>(with_transform: bool) {
         MetaVarExtract::Transformed(n) => (3, n),
       };
       assert!(c == class);
-      let sig = if class == 2 { 3 } else if buf[1] == b'$' && len > 1 { 2 } else { 1 };
       assert!(name.as_bytes() == &buf[sig..consumed]);
     }
   }
